@@ -6,6 +6,9 @@ use std::time::Duration;
 use darklua_core::WorkerTree;
 #[cfg(not(target_arch = "wasm32"))]
 pub use file_watcher::FileWatcher;
+#[cfg(all(feature = "verif-hooks", not(target_arch = "wasm32")))]
+#[allow(unused_imports)]
+pub use file_watcher::VerifWatchSignal;
 
 pub fn maybe_plural(count: usize) -> &'static str {
     if count > 1 {
